@@ -21,9 +21,17 @@ def _execute(ctx, entropy_seed):
     import core
     from oracles import diff_state, module_state
 
+    import hashlib
+    import random as _random
+
     core.load_openskill(fresh=True)
     before = module_state()
     viol = None
+    # the GLOBAL random module is a seam too: seeded per run (the library does not use it
+    # today; a change that starts to stays replayable), and re-seeded with the same value by
+    # the RESEED_RANDOM fault
+    ctx.random_seed = int.from_bytes(hashlib.sha256(("random:%s" % entropy_seed).encode()).digest()[:6], "big")
+    _random.seed(ctx.random_seed)
     with Entropy(entropy_seed) as ent:
         drv = DRIVERS[ctx.prop][0](ctx)
         try:
